@@ -319,59 +319,69 @@ Proof.
   rewrite P. split; reflexivity.
 Qed.
 
-Lemma tile_outside_empty_l : forall lname cb cont inter g,
-  authorize_tile Ft_tile lname cb = T_ok (Some g) -> cont g = false -> inter g = false ->
+Lemma tile_outside_empty_l : forall lname cb cont inter gs,
+  authorize_tile Ft_tile lname cb = T_ok gs -> gs <> [] -> cont gs = false -> inter gs = false ->
   tile_render lname cb cont inter = TO_empty /\ tile_loads (tile_render lname cb cont inter) = false.
 Proof.
-  intros lname cb cont inter g H Hc Hi. unfold tile_render. rewrite H, Hc, Hi. split; reflexivity.
+  intros lname cb cont inter gs H Hne Hc Hi. unfold tile_render. rewrite H.
+  destruct gs as [|g gs']; [congruence|]. rewrite Hc, Hi. split; reflexivity.
 Qed.
 
-Lemma tile_partial_masked_l : forall lname cb cont inter g,
-  authorize_tile Ft_tile lname cb = T_ok (Some g) -> cont g = false -> inter g = true ->
-  tile_render lname cb cont inter = TO_masked g.
+Lemma tile_partial_masked_l : forall lname cb cont inter gs,
+  authorize_tile Ft_tile lname cb = T_ok gs -> gs <> [] -> cont gs = false -> inter gs = true ->
+  tile_render lname cb cont inter = TO_masked gs.
 Proof.
-  intros lname cb cont inter g H Hc Hi. unfold tile_render. rewrite H, Hc, Hi. reflexivity.
+  intros lname cb cont inter gs H Hne Hc Hi. unfold tile_render. rewrite H.
+  destruct gs as [|g gs']; [congruence|]. rewrite Hc, Hi. reflexivity.
 Qed.
 
-(* the geometry a tile request is clipped to: the layer's own limited_to, else the global one *)
-Lemma authorize_tile_limit : forall key n r lim,
-  authorize_tile key n (Some r) = T_ok lim -> r_kind r = A_partial ->
-  exists p, assoc n (r_layers r) = Some p /\
-            lim = match p_lim p with Some g => Some g | None => r_lim r end.
+(* the geometries a tile request is clipped to: the layer's own limited_to and the global one, both *)
+Lemma authorize_tile_limit : forall key n r lims,
+  authorize_tile key n (Some r) = T_ok lims -> r_kind r = A_partial ->
+  exists p, assoc n (r_layers r) = Some p /\ lims = opt_list (p_lim p) ++ opt_list (r_lim r).
 Proof.
-  intros key n r lim H K. unfold authorize_tile in H. rewrite K in H.
+  intros key n r lims H K. unfold authorize_tile in H. rewrite K in H.
   destruct (assoc n (r_layers r)) as [p|]; [|discriminate].
   destruct (is_True (flag key p)); [|discriminate]. inversion H; subst. exists p. split; reflexivity.
 Qed.
 
-(* the global limited_to is honoured when the layer entry has no limited_to of its own ... *)
-Lemma tile_global_limit_partial : forall key n r lim g,
-  authorize_tile key n (Some r) = T_ok lim -> r_kind r = A_partial -> r_lim r = Some g ->
-  (forall p, assoc n (r_layers r) = Some p -> p_lim p = None) ->
-  lim = Some g.
+Lemma tile_global_limit : forall key n r lims g,
+  authorize_tile key n (Some r) = T_ok lims -> r_kind r = A_partial -> r_lim r = Some g -> In g lims.
 Proof.
-  intros key n r lim g H K G Hno. destruct (authorize_tile_limit _ _ _ _ H K) as [p [A L]].
-  rewrite (Hno p A) in L. rewrite G in L. exact L.
+  intros key n r lims g H K G. destruct (authorize_tile_limit _ _ _ _ H K) as [p [_ L]]. subst lims.
+  rewrite G. apply in_or_app. right. left. reflexivity.
 Qed.
 
-(* ... and ignored otherwise (finding: tile services, global limited_to) *)
-Lemma tile_global_limit_refuted :
-  exists r n g g' cont inter, g <> g' /\ r_kind r = A_partial /\ r_lim r = Some g /\
-    authorize_tile Ft_tile n (Some r) = T_ok (Some g') /\
-    cont g = false /\ inter g = false /\
-    tile_render n (Some r) cont inter = TO_full.
+Lemma tile_layer_limit : forall key n r lims p g,
+  authorize_tile key n (Some r) = T_ok lims -> r_kind r = A_partial ->
+  assoc n (r_layers r) = Some p -> p_lim p = Some g -> In g lims.
 Proof.
-  exists (mk_cbres A_partial [(1, mk_perm F_missing F_missing F_true (Some 7))] (Some 5)), 1, 5, 7,
-         (fun g => g =? 7), (fun g => g =? 7).
-  repeat split; try reflexivity. lia.
+  intros key n r lims p g H K A G. destruct (authorize_tile_limit _ _ _ _ H K) as [p' [A' L]]. subst lims.
+  rewrite A in A'. inversion A'; subst p'. rewrite G. left. reflexivity.
 Qed.
 
-Lemma wmts_fi_gate : forall n infos cb pt_in g,
-  authorize_tile Ft_fi n cb = T_ok (Some g) -> pt_in g = false -> infos <> [] ->
+(* only geometries the callback named are applied *)
+Lemma tile_limits_from_callback : forall key n r lims g,
+  authorize_tile key n (Some r) = T_ok lims -> In g lims ->
+  r_lim r = Some g \/ exists p, assoc n (r_layers r) = Some p /\ p_lim p = Some g.
+Proof.
+  intros key n r lims g H Hin. unfold authorize_tile in H.
+  destruct (r_kind r); try discriminate.
+  - inversion H; subst. contradiction.
+  - destruct (assoc n (r_layers r)) as [p|] eqn:A; [|discriminate].
+    destruct (is_True (flag key p)); [|discriminate]. inversion H; subst. clear H.
+    apply in_app_or in Hin. destruct Hin as [Hin|Hin].
+    + right. exists p. split; [reflexivity|]. destruct (p_lim p); [|contradiction].
+      destruct Hin as [E|[]]. subst. reflexivity.
+    + left. destruct (r_lim r); [|contradiction]. destruct Hin as [E|[]]. subst. reflexivity.
+Qed.
+
+Lemma wmts_fi_gate : forall n infos cb pt_in gs,
+  authorize_tile Ft_fi n cb = T_ok gs -> gs <> [] -> pt_in gs = false -> infos <> [] ->
   wmts_featureinfo n infos cb pt_in = FI_ok [].
 Proof.
-  intros n infos cb pt_in g H P Hne. unfold wmts_featureinfo. rewrite H.
-  destruct infos; [congruence|]. rewrite P. reflexivity.
+  intros n infos cb pt_in gs H Hg P Hne. unfold wmts_featureinfo. rewrite H.
+  destruct infos; [congruence|]. destruct gs; [congruence|]. rewrite P. reflexivity.
 Qed.
 
 Lemma wmts_fi_denied : forall n infos r pt_in,
@@ -634,13 +644,15 @@ Example ex_fi_gate_out : wms_featureinfo ex_tree [2] [2] (Some ex_cb) (fun g => 
 Proof. reflexivity. Qed.
 Example ex_fi_layer_out : wms_featureinfo ex_tree [2] [2] (Some ex_cb) (fun g => g =? 8) = W_ok [] (Some 8).
 Proof. reflexivity. Qed.
-Example ex_tile_masked : tile_render 3 (Some ex_cb) (fun _ => false) (fun g => g =? 7) = TO_masked 7.
+Example ex_tile_masked : tile_render 3 (Some ex_cb) (fun _ => false) (fun gs => list_eqb Z.eqb gs [7; 8]) = TO_masked [7; 8].
 Proof. reflexivity. Qed.
 Example ex_tile_empty : tile_render 3 (Some ex_cb) (fun _ => false) (fun _ => false) = TO_empty.
 Proof. reflexivity. Qed.
 Example ex_tile_denied : tile_render 1 (Some ex_cb) (fun _ => true) (fun _ => true) = TO_403.
 Proof. reflexivity. Qed.
 Example ex_wmts_fi : wmts_featureinfo 3 [31] (Some ex_cb) (fun _ => false) = FI_ok [].
+Proof. reflexivity. Qed.
+Example ex_tile_both_limits : authorize_tile Ft_tile 3 (Some ex_cb) = T_ok [7; 8].
 Proof. reflexivity. Qed.
 
 Definition ex_ro : ropts := mk_ropts None (Some false) (Some (16, 32, 48)).
